@@ -1,10 +1,12 @@
 //! lruverif: runtime monitors for lru-mem (library part shared by the binaries).
 
+pub mod aliaskeys;
 pub mod engine;
 pub mod enumr;
 pub mod gen;
 pub mod inject;
 pub mod json;
+pub mod modelrun;
 pub mod obs;
 pub mod ops;
 pub mod oracle;
